@@ -344,7 +344,7 @@ fn hist_case(maxops: usize) -> BoxedStrategy<HistCase> {
 pub fn run(ctx: &Ctx) {
     ctx.set_rule("stateful model-based: case = (hash, shape of 1..4 levels over {H2,H5} <= 1024 leaves, seed, sequence of ops {sign via hbs_lms::sign with accepting/rejecting callback, sign via SigningKey::try_sign / try_sign_with_aux(None), sign with aux buffer {empty, short header, 0xff.., zeroed, valid, valid-corrupted}, reload through SigningKey::from_bytes, retry with another message after a rejected callback, skip k accepted signatures}) interpreted against the library and a ghost state; after every step: released signature parsed with the model parser, (level, I, q) -> (C, H(content)) ghost map must never see a second different content, q's == mixed-radix digits of the number of earlier releases, I == model derivation from (parent seed, parent I, parent q), successor key == counter+1 blob or the wiped blob, failed attempts leave the key unchanged, nothing released once wiped, signature verifies. Forced class: complete lifetimes with interruptions. Non-trivial = history with a failed/rejected/reload step between two released signatures AND crossing >= 1 subtree boundary, or a complete lifetime; distinct by serialized case.");
     ctx.assume("a panic inside a signing attempt is treated as a failed attempt here (it is C11's violation); the reuse invariants are still checked on everything that is released");
-    let cases = ctx.tier.pick(320u32, 6_000u32);
+    let cases = ctx.tier.pick(600u32, 6_000u32);
     let maxops = ctx.tier.pick(30usize, 60usize);
     ctx.random("histories", &|| hist_case(maxops), cases, Opts { shrink_iters: 200, ..Opts::default() }, check_history);
     ctx.require_class("histories", "L2|crossed-boundary|with-failures|released");
